@@ -389,6 +389,33 @@ def _initial_values(ctx: Ctx, helpers):
 def _session_format(ctx: Ctx, helpers):
     model = ctx.model
     ctx.rule("C16-R3b", "session id = identity;start-time;high32;low32[;optional...]", floor=3)
+    # the start time enters the session ids as four bytes: whatever the clock says, the value
+    # given to int.to_bytes(4) fits (masked / reduced modulo 2^32) - a clock beyond 2106-02-07 or
+    # before 1970 must not make the constructor (and Node.__init__) raise OverflowError
+    for g in [c_ for c_ in helpers.classes.values() if c_.name.endswith("Generator")]:
+        init = g.methods.get("__init__")
+        if init is None:
+            continue
+        for n in A.walk_no_nested(init.node):
+            if isinstance(n, ast.Call) and isinstance(n.func, ast.Attribute) and n.func.attr == "to_bytes" \
+                    and n.args and model.try_fold(n.args[0], init.module, g) == 4 \
+                    and any(isinstance(x, ast.Call) and A.call_name(x) in ("time.time", "time.time_ns")
+                            for x in ast.walk(n.func.value)):
+                cons_t = f"{g.name}.__init__:start-time-fits-32-bits"
+                ctx.cur("C16-R3b")
+                ctx.inst(cons_t, rule="C16-R3b")
+                v = n.func.value
+                masked = isinstance(v, ast.BinOp) and (
+                    (isinstance(v.op, ast.BitAnd) and any(
+                        isinstance(model.try_fold(x, init.module, g), int)
+                        and 0 <= model.try_fold(x, init.module, g) <= 0xffffffff for x in (v.left, v.right)))
+                    or (isinstance(v.op, ast.Mod) and model.try_fold(v.right, init.module, g) in (2 ** 32,)))
+                if not masked:
+                    ctx.fail(cons_t, init.loc(n), f"`{ast.unparse(n)[:70]}` renders the start time with "
+                             f"int.to_bytes(4) unmasked: a clock at or beyond 2^32 s (2106-02-07), or before "
+                             f"1970, raises OverflowError in the constructor - no session id, and no Node",
+                             rule="C16-R3b", expected="(int(time.time()) & 0xffffffff).to_bytes(4, ...)",
+                             observed=ast.unparse(v)[:60])
     g = helpers.classes["SessionGenerator"]
     f = g.methods.get("next_id")
     init = g.methods.get("__init__")
